@@ -93,6 +93,27 @@ macro_rules! bodies {
             cover!(got & 1 == 1 && rem != 0);
             Outcome::eq(got, r::div_from_qr($n, $es, xr, yr, q, rem != 0) as u64)
         }
+        /// one operator at a time (OP 0 add, 1 sub, 2 mul): trait, const-method and op-assign spellings agree
+        pub fn spell_op<const OP: u8, S: Src>(s: &mut S) -> Outcome {
+            let (x, y) = (s.$draw(), s.$draw());
+            let (a, b) = (<$P>::from_bits(x), <$P>::from_bits(y));
+            let mut c = a;
+            cover!(x & 1 == 1 && y & 1 == 1);
+            match OP {
+                0 => {
+                    c += b;
+                    Outcome::eq((a + b).to_bits() as u64, a.add(b).to_bits() as u64).and(Outcome::eq(c.to_bits() as u64, a.add(b).to_bits() as u64))
+                }
+                1 => {
+                    c -= b;
+                    Outcome::eq((a - b).to_bits() as u64, a.sub(b).to_bits() as u64).and(Outcome::eq(c.to_bits() as u64, a.sub(b).to_bits() as u64))
+                }
+                _ => {
+                    c *= b;
+                    Outcome::eq((a * b).to_bits() as u64, a.mul(b).to_bits() as u64).and(Outcome::eq(c.to_bits() as u64, a.mul(b).to_bits() as u64))
+                }
+            }
+        }
         /// operator-trait, const-method and op-assign spellings agree
         pub fn spell<S: Src>(s: &mut S) -> Outcome {
             let (x, y) = (s.$draw(), s.$draw());
@@ -139,7 +160,7 @@ pub mod p32 {
             return Outcome::skip();
         }
         let got = (P32E2::from_bits(x) + P32E2::from_bits(y)).to_bits() as u64;
-        cover!(got & 1 == 1 && got != x as u64 && got != y as u64);
+        cover!(got & 1 == 1 && x & 1 == 1 && y & 1 == 1);
         Outcome::eq(got, r::add(32, 2, x, y) as u64)
     }
     pub fn sub_slice<const SAME: bool, const DLO: i32, const DHI: i32, S: Src>(s: &mut S) -> Outcome {
@@ -149,7 +170,7 @@ pub mod p32 {
             return Outcome::skip();
         }
         let got = (P32E2::from_bits(x) - P32E2::from_bits(y)).to_bits() as u64;
-        cover!(got & 1 == 1 && got != x as u64);
+        cover!(got & 1 == 1 && x & 1 == 1 && y & 1 == 1);
         Outcome::eq(got, r::sub(32, 2, x, y) as u64)
     }
     /// zero / NaR operands (the complement of the slices' domain)
